@@ -111,10 +111,11 @@ claim(
     "Decides that the tables every construction, fold and translation goes through agree end to end: operator "
     "bindings per AST class (incl. reflected forms), opposites/inverse tables, the Not-rewrite arms, variadic "
     "reducers, the Z3 constructor and operand order of every op, the concrete operator/signedness/zero-divisor "
-    "table, and If()'s inline rewrites.",
-    "Not decided: equivalence of the arithmetic rewrites in simplifications.py for every width and constant (needs a "
-    "decision procedure - another family); the three confirmed wrong rewrites ((x<<255)<<1, ((y&3)^3)==0, "
-    "~If(c,1,0) at 8 bits) are arithmetic facts these rules cannot see. " + GENERIC_NOTE,
+    "table, If()'s inline rewrites, and that the simplifier rewrites which are identities only under a side "
+    "condition (merging nested shifts, the (e & m) ^ m mask test, flipping ~If(c, 1, 0), rotate-and-mask) are "
+    "returned only where that condition dominates.",
+    "Not decided: equivalence of the unconditional arithmetic rewrites in simplifications.py for every width and "
+    "constant (needs a decision procedure - another family). " + GENERIC_NOTE,
 )
 claim(
     "C02",
@@ -219,19 +220,22 @@ claim(
 claim(
     "C21",
     "finite-domain abstract interpretation of extracted fragments (orderings of four bounds; three-valued "
-    "booleans; divisibility sets and linear forms modulo 2**w over symbolic paths) + operator-delegation table + "
-    "guard dominance + dependence (AST)",
-    "Decides soundness of the eight order comparisons for all inputs (the per-piece verdict is evaluated under "
-    "every weak ordering of the four bounds, aggregation over every verdict combination), soundness of the "
-    "three-valued connectives, the operator-to-transfer-function table (unary minus, shifts, order operators), "
-    "that shift ranges depend on the shift amount only, that add/sub build their result from the right modular "
-    "sums/differences of bounds with a stride dividing both operands' strides, that the join's stride divides "
-    "each operand's stride and lower-bound offset on every path, that ordering tests on a raw span are bounded "
-    "below or dominated by a no-wrap fact, and that truncation keeps the stride only under a no-wrap / "
-    "stride-compatibility guard.",
+    "booleans; divisibility sets and linear forms modulo 2**w over symbolic paths) + guard dominance for the shape "
+    "clauses of modular interval arithmetic + operator-delegation table + dependence (AST)",
+    "Decides soundness of the eight order comparisons for all inputs (per-piece verdict under every weak ordering "
+    "of the four bounds, aggregation over every verdict combination), soundness of the three-valued connectives, "
+    "the operator-to-transfer-function table, and these necessary conditions on every path: add/sub build the "
+    "modular sum/difference of the right bounds with a stride dividing both strides, only under a no-overflow "
+    "fact; the join's stride divides each operand's stride and offset; a stride written into a full interval is a "
+    "power of two; ordering tests on a raw span are bounded below; truncation keeps a stride only under a "
+    "no-wrap/divisibility guard; the sign-bit AND shortcut claims one value only with all members on one side; a "
+    "right shift keeps a shifted stride only where 2**n divides it; shift ranges come from a non-wrapping amount "
+    "only; left-shifted bounds become an interval only under a span fact; each bound gets its own sign fill; the "
+    "remainder is x - (x div t)*t over the loop's pieces; every division by a stride is under a non-zero fact; a "
+    "width is overwritten only on an object that cannot wrap; congruence tests use an upward modular distance.",
     "Assumes each piece returned by _signed_bounds/_unsigned_bounds has lb <= ub and covers the members. Not "
-    "decided: the numerics of mul/div/mod/bitwise/shift/extend/concat and the overflow tests of add/sub (the "
-    "confirmed mod, sign-bit-AND and wrapping-shift defects are arithmetic facts). " + GENERIC_NOTE,
+    "decided: the numerics of mul/udiv/bitwise (Warren) and of the overflow predicates. Known finding: sdiv rounds "
+    "mixed-sign quotients down (four existing tests pin that). " + GENERIC_NOTE,
 )
 claim(
     "C22",
@@ -242,7 +246,9 @@ claim(
     "provably divides the stride of each operand that may hold several values and the modular offset of each "
     "operand's lower bound from the result's lattice; an operand is handed back unchanged only where the other is "
     "empty; a widening that moves both bounds to the extremes gives TOP; min/max fold the least lower / greatest "
-    "upper bound of the pieces matching the requested signedness.",
+    "upper bound of the pieces matching the requested signedness; membership of a constant counts strides round the "
+    "circle; every signed bound handed out is converted and every listed value depends on the requested signedness; "
+    "no query divides by a zero stride.",
     "Not decided (arithmetic over runtime bounds, declined): that the chosen bounds cover both operands, the "
     "twelve geometric meet cases and their Diophantine solver, exactness of eval / cardinality / membership. "
     "Two known findings: widen is unsound (both-bounds case and phase of the second operand). " + GENERIC_NOTE,
@@ -253,7 +259,8 @@ claim(
     "Decides that reflected non-commutative operators do not compute the forward operation, that every "
     "element-wise lifted operation names an existing member operation of the same arity and unary minus / "
     "complement apply the member operator of the same meaning, that StridedInterval.__hash__ covers every "
-    "value-determining field copy() carries (members live in a Python set), and that value-set order comparisons "
+    "value-determining field copy() carries, the bottom flag included (members live in a Python set and == is always "
+    "truthy), and that value-set order comparisons "
     "answer Maybe with != the complement of == and per-region arithmetic applied to every region.",
     "Not decided: per-member numerics (inherited from C21), collapse/normalisation. " + GENERIC_NOTE,
 )
@@ -274,7 +281,9 @@ claim(
     "intersected, that min/max- and left/right-named locals are fed from the matching query / side, the De Morgan / "
     "single-disjunct unpacking rules, that 'unsatisfiable' is reported only under a definite test and only for the "
     "balancer's own unsat error, and that every balance rewrite f(x) OP c -> x OP g(c) is returned only under an "
-    "operator restriction for which it is an implication or under a VSA range fact about the bits it discards.",
+    "operator restriction for which it is an implication or under a VSA range fact about the bits it discards - "
+    "which carries unsigned comparisons and (in)equalities over, a signed one only as its unsigned counterpart "
+    "where both sides agree on their high bits - and that no rebuilt bound is shifted arithmetically.",
     "Not decided: the numeric content of the range facts and of g; the add/sub arms are known findings (no wrap "
     "condition). "
     + GENERIC_NOTE,
